@@ -9,7 +9,7 @@ from harness import behave, core, tlc
 from harness.report import Report
 from harness.terms import jkey
 
-DATES = [["str", "%04d-02-28" % y] for y in (2019, 2020, 2021, 2022, 2023, 2024)]
+DATES = [["str", "%04d-02-28" % y] for y in (2019, 2020, 2021, 2022, 2023, 2024, 2025)]
 TABLE = [(["date", "int", "str"], DATES + [["int", 5], ["str", "t"]]), (["bytes"], [["str", "AQL/\n"]])]
 
 
